@@ -26,7 +26,7 @@ PROP = dict(
          "type tags, unicode and the empty string, biased to existing and colliding keys, every persisted field of clients, subscriptions and messages varied, topic alias on half of the packets (quick 150, thorough 1500); all read-back fields incl. T and TopicAlias compared; "
          "(iv) directed on all four back ends: a take-over seen by the hooks in the three orders of (new OnSessionEstablished, old OnWillSent, old OnDisconnect) x expire true/false x stop cause take-over / wrapped take-over / shutdown / EOF / none, and OnSubscribed with reason codes 0x00..0x02, 0x7f, 0x80, 0x81, 0x83, 0x87, 0x8f, 0x91, 0x97, 0x9e, 0xa1, 0xa2, 0xff alone, mixed with granted filters and over an existing stored subscription (the model, not the majority of back ends, says what must be stored); (iii) keys at the engines' limits (32768/32769, 65000/65001, 65535) and ids made of key syntax.  quick: bolt + "
          "redis on every case, all four on every 16th; thorough: pebble + bolt + redis on every case, badger on every 4th.  "
-         "non-trivial = at least two events; distinct = distinct case lines",
+         "every case is read back twice: from the still-open store and after the back end has been closed and opened again on the same location (badger the second time only for the directed histories that delete something); directed histories that write one record key two or three times before deleting it (in-flight PUBLISH -> resend -> PUBREL then complete / dropped, a filter subscribed twice then unsubscribed, a retained message set twice then cleared / expired, a client record written twice then expired / disconnected with expiry).  non-trivial = at least two events; distinct = distinct case lines",
     exhaustive=False,
     modelled="hooks/storage/{badger,pebble,bolt,redis}/*.go: every On* storage method, key helpers, setKv/delKv/iterKv/"
              "getKv and HSet/HDel/HGetAll/HGet, Stored*; hooks/storage/storage.go record types",
